@@ -1027,6 +1027,26 @@ def r19_6(ctx: Ctx) -> None:
         else:
             raise AnalysisError(f"R19.6: cannot tell which history item `{unparse(x)}` denotes")
         ctx.record(R, ctx.key(h, f"history read #{i + 1} is the previous turn's item"), h.loc(x), ok, why)
+    # the handler answers True for 'success' only: 'failure', 'unreachable', 'pending' (and anything else) count as not successful
+    from ..absval import UNKNOWN, Evaluator, walk
+    gh = CFG(h.node)
+    status_exprs = sorted({unparse(x) for x in ast.walk(h.node) if isinstance(x, ast.Attribute) and x.attr == "status"})
+    if len(status_exprs) != 1:
+        raise AnalysisError(f"R19.6: cannot identify the response status the handler tests ({status_exprs})")
+    bad_rows = []
+    for st_ in ("success", "failure", "unreachable", "pending"):
+        for rep in (True, False):
+            env = {status_exprs[0]: st_, "self.config.agent_settings.repeat_kill_chain_stages": rep}
+            ev = Evaluator(env, LocalDefs(h.node))
+            out, node, _tr = walk(gh, ev)
+            if out != "return":
+                raise AnalysisError(f"R19.6: cannot evaluate _tap_return_handler for status {st_!r} ({out})")
+            v = ev.ev(node.ast.value)
+            if v is UNKNOWN or bool(v) != (st_ == "success"):
+                bad_rows.append(f"status {st_!r} (repeat_kill_chain_stages={rep}): handler answers {v}")
+    ctx.record(R, ctx.key(h, "successful only for status 'success'"), h.loc(), not bad_rows,
+               "8-row table: True for 'success', False for 'failure' / 'unreachable' / 'pending'" if not bad_rows else
+               "a response other than 'success' is taken for a success: the kill chain advances although the action did not happen", bad_rows[:4])
     n = 0
     for cs in call_sites(ix, ["_tap_return_handler"]):
         n += 1
@@ -1045,6 +1065,23 @@ def r19_6(ctx: Ctx) -> None:
                        f"{len(upd)} update_current_timestep call(s), none before the handler" if upd and not before else
                        "current_timestep is overwritten before the previous turn's response is examined")
     ctx.floor(R, "callers of _tap_return_handler", n, 2)
+    # at the end of the chain (SUCCEEDED / FAILED) the turn that notices it emits nothing: every path of _tap_outcome_handler through
+    # that edge stores chosen_action = do-nothing before it returns (otherwise the last action fires once more)
+    oh = ix.method("AbstractTAP._tap_outcome_handler")
+    go = CFG(oh.node)
+    end_edges = [e for e in go.edges() if e.label and e.label[0] == "cond" and e.label[2] is True and isinstance(e.label[1], ast.Compare)
+                 and any(isinstance(x, ast.Attribute) and x.attr in ("SUCCEEDED", "FAILED") for x in ast.walk(e.label[1]))
+                 and "current_kill_chain_stage" in unparse(e.label[1])]
+    if not end_edges:
+        raise AnalysisError("R19.6: the end-of-chain test of _tap_outcome_handler was not recognised")
+    idle = {n.id for n in go.nodes if n.kind == "stmt" and isinstance(n.ast, ast.Assign) and any(unparse(t) == "self.chosen_action" for t in n.ast.targets)
+            and _is_do_nothing(n.ast.value)}
+    wit = None
+    for e in end_edges:
+        wit = wit or (None if e.dst.id in idle else go.path_avoiding([go.exit], lambda x: False, start=e.dst, blocked_nodes=idle))
+    ctx.record(R, ctx.key(oh, "the end of the chain emits do-nothing"), oh.loc(end_edges[0].label[1]), wit is None,
+               "every path through the SUCCEEDED / FAILED edge sets chosen_action to do-nothing" if wit is None else
+               "after the chain has ended the handler can return with the previous turn's action still chosen: it is issued once more", path_text(wit))
     writers = [s for s in _stores(ctx, "current_timestep") if s.path.startswith(PKG)]
     for s in writers:
         ok = s.owner.endswith(".update_current_timestep") or s.owner.endswith(".__init__") or s.fn is None
